@@ -181,6 +181,37 @@ ContentsShape(objs, p) ==
        ELSE IF c.k = "ref" THEN (IF Target(objs, c).k = "arr" THEN "refToArray" ELSE "ref")
        ELSE "other"
 
+\* the objects that make up a page's Contents: the object behind a Contents reference and the streams
+ContentChain(objs, p) ==
+    LET pg == GetObj(objs, p)
+        c  == IF pg.k = "dict" THEN Get(pg.v, "Contents") ELSE None
+    IN (IF c.k = "ref" THEN {TargetId(objs, c)} ELSE {}) \cup RangeOf(ContentIds(objs, p))
+
+\* Everything the judge and the guards need to know about ONE document, computed once per state:
+\*   reach    ids reachable from the trailer          pp      the page sequence
+\*   tree     nodes of the page tree                  prot    catalog + tree nodes
+\*   content  page id -> decoded content              counts  CountsOk
+\*   cobjs    objects that make up pages' Contents
+\*   sound    no reachable reference to a missing object and every content id names a stream
+Aux(d) ==
+    LET g     == Graph(d)
+        pp    == PT!Dfs(g)
+        tree  == PT!Reach(g) \cap DOMAIN d.objs
+        fuel  == Cardinality(DOMAIN d.objs) + 1
+        reach == Reach(d)
+        refs  == RefsOf(DictO(d.trailer)) \cup UNION {RefsOf(d.objs[id]) : id \in reach}
+        root  == Get(d.trailer, "Root")
+    IN [reach   |-> reach,
+        pp      |-> pp,
+        tree    |-> tree,
+        prot    |-> tree \cup (IF root.k = "ref" THEN {root.n} ELSE {}),
+        content |-> [p \in RangeOf(pp) |-> Content(d.objs, p)],
+        counts  |-> \A n \in {m \in tree : g.typ[m] = "Pages"} : CountOf(d.objs[n]) = Len(PT!DfsFrom(g, n, fuel)),
+        cobjs   |-> UNION {ContentChain(d.objs, p) : p \in RangeOf(pp)},
+        sound   |-> refs \subseteq DOMAIN d.objs
+                    /\ \A p \in RangeOf(pp) : \A i \in DOMAIN ContentIds(d.objs, p) :
+                          GetObj(d.objs, ContentIds(d.objs, p)[i]).k = "stream"]
+
 \* resources in effect for a page: the nearest Resources entry up the Parent chain (7.7.3.4)
 RECURSIVE ResHolderF(_, _, _)
 ResHolderF(objs, n, fuel) ==
@@ -214,12 +245,12 @@ OwnResObjs(objs, p) ==
 
 Holders(d, X) == {id \in DOMAIN d.objs : RefsOf(d.objs[id]) \cap X # {}}
 
-\* pages named by a delete_pages argument
-DeletedPages(d, nums) == LET pp == PageSeq(d) IN {pp[i] : i \in RangeOf(nums) \cap (1..Len(pp))}
+\* pages named by a delete_pages argument (pp = the page sequence before the call)
+DeletedPages(pp, nums) == {pp[i] : i \in RangeOf(nums) \cap (1..Len(pp))}
 
-DeletedBy(pre, c) ==
+DeletedBy(A, c) ==
     CASE c.op = "DeleteObject" -> {c.id}
-      [] c.op = "DeletePages"  -> DeletedPages(pre, c.nums)
+      [] c.op = "DeletePages"  -> DeletedPages(A.pp, c.nums)
       [] OTHER                 -> {}
 
 IsDeletion(c) == c.op \in {"DeleteObject", "DeletePages"}
@@ -230,13 +261,13 @@ Rekeying   == {"Renumber", "SaveLoad"}          \* every identifier may change /
 
 \* The objects of the pre-state a call is documented to write (how "no operation other than an
 \* explicit deletion removes or alters an object" is read; an explicit deletion may remove the
-\* named objects and edit the objects that hold references to them)
-WriteSet(pre, c) ==
+\* named objects and edit the objects that hold references to them).  A = Aux(pre).
+WriteSet(pre, A, c) ==
     CASE c.op = "Replace"             -> {c.id}
       [] c.op = "DeleteObject"        -> {c.id} \cup Holders(pre, {c.id})
-      [] c.op = "DeletePages"         -> LET X == DeletedPages(pre, c.nums) IN
+      [] c.op = "DeletePages"         -> LET X == DeletedPages(A.pp, c.nums) IN
                                          X \cup Holders(pre, X) \cup UNION {Ancestors(pre.objs, p) : p \in X}
-      [] c.op = "RemoveAnnot"         -> PageSet(pre)
+      [] c.op = "RemoveAnnot"         -> RangeOf(A.pp)
       [] c.op = "AddPageContents"     -> {c.id}
       [] c.op = "ChangePageContent"   -> {c.id} \cup RangeOf(ContentIds(pre.objs, c.id))
       [] c.op = "ChangeContentStream" -> {c.id}
@@ -271,8 +302,8 @@ HasDupArr(o, x) ==
       [] OTHER          -> FALSE
 
 \* NoStaleRef, clause by clause: the places where a reference to a deleted object is left behind
-\* in the trailer or in an object still reachable from it
-StaleTags(pre, post, X) ==
+\* in the trailer or in an object still reachable from it (reachPost = Reach(post))
+StaleTags(pre, post, reachPost, X) ==
     LET tagsFor(o, o0, x) ==
             LET ks == Kinds(o, x) IN
                (IF "arr" \in ks THEN (IF HasDupArr(o0, x) THEN {"delete.array.dup"} ELSE {"delete.array"}) ELSE {})
@@ -285,8 +316,9 @@ StaleTags(pre, post, X) ==
                      \cup (tagsFor(tr, tr0, x) \ {"delete.dict"})
                      \cup UNION {(IF "dict" \in Kinds(post.trailer[key], x) THEN {"delete.dict"} ELSE {})
                                  : key \in DOMAIN post.trailer}
+        holders(x) == {h \in reachPost : x \in RefsOf(post.objs[h])}
     IN UNION {trTags(x) \cup UNION {tagsFor(post.objs[h], IF h \in DOMAIN pre.objs THEN pre.objs[h] ELSE NullO, x)
-                                     : h \in Reach(post)}
+                                     : h \in holders(x)}
               : x \in X}
 
 -----------------------------------------------------------------------------
@@ -294,40 +326,42 @@ StaleTags(pre, post, X) ==
 (*   issued  : identifiers handed out by new_object_id and not yet used           *)
 (*   content : page id -> the bytes the sequence of content edits implies           *)
 
-GhostOf(d) == [issued |-> {}, content |-> [p \in PageSet(d) |-> Content(d.objs, p)]]
+GhostOf(A) == [issued |-> {}, content |-> A.content]
 
-\* the content every page of the post-state must show
-ExpContent(pre, gh, c, res, post) ==
-    LET pp     == PageSeq(post)
+\* the content every page of the post-state must show (A = Aux(pre), B = Aux(post))
+ExpContent(pre, A, gh, c, res, B) ==
+    LET pages  == RangeOf(B.pp)
         old(p) == IF p \in DOMAIN gh.content THEN gh.content[p] ELSE <<>>
+        \* only a page whose Contents involve the edited object can change
+        redo(objs2) == [p \in pages |-> IF p \in DOMAIN pre.objs /\ c.id \in ContentChain(pre.objs, p)
+                                        THEN Content(objs2, p) ELSE old(p)]
     IN
-    CASE c.op = "AddPageContents"     -> [p \in RangeOf(pp) |-> IF p = c.id /\ res.ok THEN old(p) \o c.b ELSE old(p)]
-      [] c.op = "ChangePageContent"   -> [p \in RangeOf(pp) |-> IF p = c.id /\ res.ok THEN c.b ELSE old(p)]
+    CASE c.op = "AddPageContents"     -> [p \in pages |-> IF p = c.id /\ res.ok THEN old(p) \o c.b ELSE old(p)]
+      [] c.op = "ChangePageContent"   -> [p \in pages |-> IF p = c.id /\ res.ok THEN c.b ELSE old(p)]
       [] c.op = "ChangeContentStream" ->
-            LET o  == IF c.id \in DOMAIN pre.objs THEN pre.objs[c.id] ELSE None
-                o2 == IF o.k = "stream" THEN Put(pre.objs, c.id, [o EXCEPT !.c = c.b]) ELSE pre.objs
-            IN [p \in RangeOf(pp) |-> Content(o2, p)]
-      [] c.op = "DeleteObject"        -> [p \in RangeOf(pp) |-> Content(Without(pre.objs, {c.id}), p)]
-      [] c.op = "Replace"             -> [p \in RangeOf(pp) |-> Content(Put(pre.objs, c.id, c.o), p)]
-      [] c.op = "Renumber"            -> LET pp0 == PageSeq(pre) IN
-                                         [p \in RangeOf(pp) |-> IF Len(pp0) = Len(pp) THEN old(pp0[IndexOf(pp, p)]) ELSE <<>>]
-      [] OTHER                        -> [p \in RangeOf(pp) |-> old(p)]
+            LET o == IF c.id \in DOMAIN pre.objs THEN pre.objs[c.id] ELSE None
+            IN IF o.k = "stream" THEN redo(Put(pre.objs, c.id, [o EXCEPT !.c = c.b])) ELSE [p \in pages |-> old(p)]
+      [] c.op = "DeleteObject"        -> redo(Without(pre.objs, {c.id}))
+      [] c.op = "Replace"             -> redo(Put(pre.objs, c.id, c.o))
+      [] c.op = "Renumber"            -> [p \in pages |-> IF Len(A.pp) = Len(B.pp) THEN old(A.pp[IndexOf(B.pp, p)]) ELSE <<>>]
+      [] OTHER                        -> [p \in pages |-> old(p)]
 
 -----------------------------------------------------------------------------
 (* The judge: which clauses does the observed step pre --call/res--> post violate? *)
-(* Tags beginning with "drift." are not violations of the statement (they say that   *)
-(* something outside its wording changed); every other tag is a violation signature. *)
+(* A = Aux(pre), B = Aux(post).  Tags in DriftTags are not violations of the         *)
+(* statement (they say that something outside its wording changed); every other tag  *)
+(* is a violation signature.                                                          *)
 
-Judge(pre, gh, c, res, post) ==
-    LET reach    == Reach(pre)
-        ws       == WriteSet(pre, c)
+Judge(pre, A, gh, c, res, post, B) ==
+    LET reach    == A.reach
+        ws       == WriteSet(pre, A, c)
         newIds   == DOMAIN post.objs \ DOMAIN pre.objs
         goneIds  == DOMAIN pre.objs \ DOMAIN post.objs
         changed(id) == id \notin DOMAIN post.objs \/ ~SameObj(c, pre.objs[id], post.objs[id])
-        X        == DeletedBy(pre, c)
-        exp      == ExpContent(pre, gh, c, res, post)
-        pp0      == PageSeq(pre)
-        pp1      == PageSeq(post)
+        X        == DeletedBy(A, c)
+        exp      == ExpContent(pre, A, gh, c, res, B)
+        pp0      == A.pp
+        pp1      == B.pp
         \* ---- FreshIds
         alloc    == newIds \cup (IF c.op \in {"NewObjectId", "AddObject", "BuildOutline"} /\ res.id # 0 THEN {res.id} ELSE {})
         fresh    == IF c.op \in Allocating /\ alloc \cap (DOMAIN pre.objs \cup gh.issued) # {} THEN {"fresh"} ELSE {}
@@ -338,27 +372,27 @@ Judge(pre, gh, c, res, post) ==
                           THEN {"frame.trailer"} ELSE {})
         unreach  == IF c.op # "Prune" /\ \E id \in (DOMAIN pre.objs \ reach) \ ws : changed(id) THEN {"drift.unreach"} ELSE {}
         \* ---- NoStaleRef
-        stale    == IF IsDeletion(c) THEN StaleTags(pre, post, X) ELSE {}
+        stale    == IF IsDeletion(c) THEN StaleTags(pre, post, B.reach, X) ELSE {}
         \* ---- PruneExact
         prune    == IF c.op = "Prune" /\ (DOMAIN post.objs # reach \/ RangeOf(res.ids) # DOMAIN pre.objs \ reach)
                     THEN {"prune"} ELSE {}
         \* ---- CountsOk, MaxIdOk
-        counts   == IF CountsOk(post) THEN {} ELSE {"counts"}
+        counts   == IF B.counts THEN {} ELSE {"counts"}
         issued1  == CASE c.op = "NewObjectId" -> gh.issued \cup {res.id}
                       [] c.op = "Replace"     -> gh.issued \ {c.id}
                       [] c.op \in Rekeying    -> {}
                       [] OTHER                -> gh.issued
         maxid    == IF post.max_id >= MaxOf(DOMAIN post.objs \cup issued1) THEN {} ELSE {"maxid"}
         \* ---- ContentOk
-        badp     == {p \in RangeOf(pp1) : Content(post.objs, p) # exp[p]}
+        badp     == {p \in RangeOf(pp1) : B.content[p] # exp[p]}
         content  == IF badp = {} THEN {}
                     ELSE IF c.op \in {"AddPageContents", "ChangePageContent"} /\ badp = {c.id}
                             /\ ContentsShape(pre.objs, c.id) = "refToArray"
                          THEN {"contents.refToArray"} ELSE {"content"}
         \* ---- ResMonotone
         lost     == IF IsResourceEdit(c)
-                    THEN {t \in ResTriples(pre.objs, c.id) :
-                             t \notin ResTriples(post.objs, c.id) /\ ~(t[1] = CatOf(c) /\ t[2] = c.name)}
+                    THEN LET after == ResTriples(post.objs, c.id) IN
+                         {t \in ResTriples(pre.objs, c.id) : t \notin after /\ ~(t[1] = CatOf(c) /\ t[2] = c.name)}
                     ELSE {}
         resmono  == IF lost = {} THEN {}
                     ELSE LET p0 == GetObj(pre.objs, c.id) p1 == GetObj(post.objs, c.id) IN
@@ -387,7 +421,7 @@ Judge(pre, gh, c, res, post) ==
                     eff(/\ Cardinality(DOMAIN pre.objs) = n /\ DOMAIN post.objs = 1..n
                         /\ (n > 0 => post.max_id = n)
                         /\ Len(pp1) = Len(pp0)
-                        /\ Cardinality(Reach(post)) = Cardinality(reach)
+                        /\ Cardinality(B.reach) = Cardinality(reach)
                         /\ \A i \in 1..Len(pp0) : i <= Len(pp1) => ResNames(post.objs, pp1[i]) = ResNames(pre.objs, pp0[i]))
               [] c.op \in {"Compress", "Decompress", "Save"} -> eff(newIds = {} /\ goneIds = {} /\ res.ok)
               [] c.op = "SaveLoad"    ->
@@ -414,14 +448,14 @@ Judge(pre, gh, c, res, post) ==
     IN [tags |-> tags,
         \* the next ghost state; content is re-synchronised to what the document shows so that one
         \* reported mismatch is reported once
-        gh   |-> [issued |-> issued1, content |-> [p \in RangeOf(pp1) |-> Content(post.objs, p)]],
+        gh   |-> [issued |-> issued1, content |-> B.content],
         exp  |-> exp]
 
-\* state clauses alone (for a starting document and its declared content)
-JudgeState(d, content) ==
-       (IF CountsOk(d) THEN {} ELSE {"counts"})
+\* state clauses alone (for a starting document and its declared content); A = Aux(d)
+JudgeState(d, A, content) ==
+       (IF A.counts THEN {} ELSE {"counts"})
     \cup (IF d.max_id >= MaxOf(DOMAIN d.objs) THEN {} ELSE {"maxid"})
-    \cup (IF \A p \in PageSet(d) : p \in DOMAIN content /\ Content(d.objs, p) = content[p] THEN {} ELSE {"content"})
+    \cup (IF \A p \in RangeOf(A.pp) : p \in DOMAIN content /\ A.content[p] = content[p] THEN {} ELSE {"content"})
 
 DriftTags == {"drift.unreach", "drift.load", "drift.model"}
 Violations(tags) == tags \ DriftTags
@@ -692,17 +726,17 @@ Impl(d, c, dev) ==
       [] c.op = "Save"                 -> ImplSave(d, c.fmt)
       [] c.op = "SaveLoad"             -> ImplSaveLoad(d, c.fmt)
 
-\* Preconditions of the calls inside the property's domain (caller errors are excluded):
+\* Preconditions of the calls inside the property's domain (caller errors are excluded); A = Aux(d):
+\*   every call     the document is sound so far (A.sound): no reachable reference to a missing
+\*                  object, every content id names a stream (either is only ever broken by a step
+\*                  already reported)
 \*   Replace        an existing or an issued id (set_object above max_id is a caller error) that is
-\*                  not a node of the page tree (the caller would own Counts and Parents)
+\*                  not a node of the page tree (the caller would own Counts and Parents) nor part
+\*                  of a page's Contents (content streams are not shared between pages)
 \*   DeleteObject   not the catalog or a node of the page tree (pages are deleted by delete_pages)
-\*   Renumber       no reachable reference to a missing object (C10's domain; its finding)
-ProtectedIds(d) ==
-    TreeNodes(d) \cup (LET r == Get(d.trailer, "Root") IN IF r.k = "ref" THEN {r.n} ELSE {})
-
-Pre(d, gh, c) ==
-    CASE c.op = "Replace"      -> c.id \in (DOMAIN d.objs \cup gh.issued) \ ProtectedIds(d) /\ c.id <= d.max_id
-      [] c.op = "DeleteObject" -> c.id \notin ProtectedIds(d)
-      [] c.op = "Renumber"     -> DanglingRefs(d) = {}
-      [] OTHER                 -> TRUE
+Pre(d, A, gh, c) ==
+    /\ A.sound
+    /\ CASE c.op = "Replace"      -> c.id \in (DOMAIN d.objs \cup gh.issued) \ (A.prot \cup A.cobjs) /\ c.id <= d.max_id
+         [] c.op = "DeleteObject" -> c.id \notin A.prot
+         [] OTHER                 -> TRUE
 =============================================================================
